@@ -986,14 +986,19 @@ class Interp:
                 st.ext[(ref, nm)] = v
         return ref
 
-    def run_generator(self, g: HGen, st: State, tree: list, hook, node=None):
+    def run_generator(self, g: HGen, st: State, tree: list, hook, node=None, carry=None):
         """Execute a generator's body now; every ``yield v`` calls hook(v, generator state, current tree, line)."""
         fi = g.fi
-        callee = State(env=g.env, ext=st.ext)
+        callee = State(env=dict(g.env or {}), ext=st.ext)
+        for k, v in (carry or {}).items():
+            callee.env[k] = v
+        for k, v in st.env.items():
+            if "^" in k:
+                callee.env.setdefault(k, v)
         act = Activation(fi, len(self.stack))
         if len(self.stack) >= self.MAX_DEPTH or any(a.fi is fi for a in self.stack):
             tree.append(("extcall", g.qualname, tuple(g.args), getattr(node, "lineno", None)))
-            return
+            return None
         self.stack.append(act)
         self.yield_hooks[act.id] = hook
         sub: list = []
@@ -1003,10 +1008,17 @@ class Interp:
             self.stack.pop()
             self.yield_hooks.pop(act.id, None)
         g.tree = sub
-        exits = self._merge_exit(out.live, out.ret)
+        if out.live is not None and out.ret is not None:
+            exits = merge_states(out.retc if out.retc is not None else ("returned", act.id), out.ret, out.live)
+        else:
+            exits = out.live or out.ret
         if exits is not None:
             st.ext = exits.ext
+            for k, v in exits.env.items():
+                if "^" in k and k in st.env:
+                    st.env[k] = v
         tree.append(("call", g.qualname, sub, getattr(node, "lineno", None), act.id))
+        return exits
 
     def force(self, ref, st: State, tree: list, node=None):
         """Materialise a lazy generator into a list object (its elements in production order)."""
@@ -1452,6 +1464,9 @@ class Interp:
         names = self._assigned_names(s.body)
         aug_only = self._aug_only_names(s.body)
         f = st.fork()
+        # variables of fused consumer frames ("name^level"): their loop bodies run at the yields inside this loop
+        cons = {k for k in f.env if "^" in k} if self._yields_inside(s.body) else set()
+        names = names | cons
         for nm in sorted(names):
             if nm in aug_only and isinstance(self.obj(f.env.get(nm, NONE)), HList):
                 # ``xs += ys`` on a list object mutates it in place and rebinds the same object
@@ -1465,14 +1480,6 @@ class Interp:
             if a in self._assigned_attrs(s.body):
                 info.setdefault("carried_attr_init", {})[(b, a)] = f.ext[(b, a)]
                 f.ext[(b, a)] = ("phi_attr", lid, b, a)
-        # names carried by enclosing fused consumers (their loop bodies run inside this loop)
-        fz_names = []
-        for fz in self.fusions:
-            for nm in sorted(fz["names"]):
-                if nm in fz["state"].env and nm not in names:
-                    info["carried_init"][nm] = fz["state"].env[nm]
-                    fz["state"].env[nm] = ("phi", lid, nm)
-                    fz_names.append((fz, nm))
         sub: list = []
         if kind == "for":
             self.bind_target(f, s.target, ("elem", lid), lid, it)
@@ -1485,11 +1492,6 @@ class Interp:
             for nm in names:
                 if nm in end.env and end.env[nm] != ("phi", lid, nm):
                     info["carried"][nm] = end.env[nm]
-        for fz, nm in fz_names:
-            v = fz["state"].env.get(nm)
-            if v is not None and v != ("phi", lid, nm):
-                info["carried"][nm] = v
-            fz["state"].env[nm] = ("loopout", lid, nm)
         if out.brk is not None:
             info["break_env"] = {nm: out.brk.env[nm] for nm in sorted(self._assigned_names(s.body)) if nm in out.brk.env}
         tree.append(("loop", lid, sub))
@@ -1497,6 +1499,16 @@ class Interp:
         after = st
         for nm in names:
             after.env[nm] = ("loopout", lid, nm)
+        # loop invariant: a consumer variable that starts equal to a generator variable and is rebound to it at every
+        # iteration equals it after the loop as well
+        for k in sorted(cons):
+            if k in info["carried"]:
+                for g_ in sorted(names - cons):
+                    if info["carried"].get(g_) == info["carried"][k] and info["carried_init"].get(g_) == info["carried_init"].get(k):
+                        after.env[k] = ("loopout", lid, g_)
+                        break
+            elif k in info["carried_init"]:
+                after.env[k] = info["carried_init"][k]      # never rebound inside the loop
         last = self._merge_exit(end, out.brk)
         if last is not None:
             for k2, v2 in last.ext.items():
@@ -1525,28 +1537,59 @@ class Interp:
                 return [("tuple", (e[0], e[1])) for e in d.entries]
         return None
 
+    @staticmethod
+    def _yields_inside(stmts) -> bool:
+        from .astutil import walk_no_nested_defs
+        return any(isinstance(x, (ast.Yield, ast.YieldFrom)) for b in stmts for x in walk_no_nested_defs(b))
+
     def _fuse_for(self, s, st: State, tree: list, gref) -> Outcome:
-        """``for x in gen(...): body``: the generator's body is executed with the loop body in place of each yield."""
+        """``for x in gen(...): body``: the generator's body is executed with the loop body in place of each yield.
+        The consumer's variables that the loop (re)binds travel through the generator's state as ``name^level`` so that
+        branches and loops of the generator merge and carry them like its own variables."""
         g = self.obj(gref)
-        names = self._assigned_names(s.body)
-        fz = {"state": st, "names": names}
+        level = len(self.fusions)
+        names = self._assigned_names(s.body) | self._assigned_names([ast.Expr(value=s.target)]) | {
+            n.id for n in ast.walk(s.target) if isinstance(n, ast.Name)}
+        key = lambda nm: f"{nm}^{level}"
+        fz = {"state": st, "names": names, "level": level}
         self.fusions.append(fz)
+        carry = {key(nm): st.env[nm] for nm in names if nm in st.env}
 
         def hook(v, gst, gtree, line, is_from=False):
             if is_from:
                 gtree.append(("yieldfrom", v, line))
                 return
             st.ext = gst.ext
+            for nm in names:
+                if key(nm) in gst.env:
+                    st.env[nm] = gst.env[key(nm)]
+            for k, val in gst.env.items():
+                if "^" in k and not k.endswith(f"^{level}") and k in st.env:
+                    st.env[k] = val
             self.bind_target(st, s.target, v)
-            o = self.exec_block(s.body, st, gtree)
+            fz["in_body"] = True
+            try:
+                o = self.exec_block(s.body, st, gtree)
+            finally:
+                fz["in_body"] = False
             end = self._merge_exit(o.live, o.cont)
             if end is not None:
                 st.env, st.ext = end.env, end.ext
+            for nm in names:
+                if nm in st.env:
+                    gst.env[key(nm)] = st.env[nm]
+            for k in list(gst.env):
+                if "^" in k and not k.endswith(f"^{level}") and k in st.env:
+                    gst.env[k] = st.env[k]
             gst.ext = st.ext
         try:
-            self.run_generator(g, st, tree, hook, s)
+            final = self.run_generator(g, st, tree, hook, s, carry=carry)
         finally:
             self.fusions.pop()
+        if final is not None:
+            for nm in names:
+                if key(nm) in final.env:
+                    st.env[nm] = final.env[key(nm)]
         return Outcome(live=st)
 
     def st_For(self, s, st, tree):
